@@ -57,6 +57,16 @@ structure Route where
   guarded : Bool         -- first statement of the handler is `if !checkLocal(w, r) { return }`
   deriving Repr, DecidableEq, BEq
 
+/-- an import spec of package http: `name` is "" (plain), "_" (blank: imported for its side
+    effects only), "." or an alias -/
+structure Import where
+  path : String
+  name : String
+  deriving Repr, DecidableEq, BEq
+
+/-- packages whose init registers handlers on http.DefaultServeMux -/
+def sideEffectPkgs : List String := ["net/http/pprof", "expvar", "golang.org/x/net/trace"]
+
 /-- the three routes of `Serve` (and of `VerifMux`, which the harness drives) -/
 def expectedRoutes : List Route := [
   ⟨"/{$}", "rootHandler", true⟩,
